@@ -260,7 +260,10 @@ impl WorkerMonitor {
 
     /// Called when all workers have exited.
     pub fn on_all_workers_exited(&self) {
-        let mut sync = self.sync.try_lock().unwrap();
+        // Note: other threads may hold the mutex at this moment: a mutator that requests a GC (or
+        // another goal) calls `make_request`, which locks it, no matter whether workers exist.
+        // The request stays recorded in `goals` and is served after the workers are respawned.
+        let mut sync = self.sync.lock().unwrap();
         #[cfg(feature = "verif")]
         crate::util::verif::rt::event("all_exited", 0, 0);
         sync.goals.on_current_goal_completed();
